@@ -38,6 +38,7 @@ int g_node_cls[kNodes] = {0, 0, 0, 0};
 type_id g_deferred_id[64];
 Recorded g_rec;
 std::vector<RawRead> g_reads;
+std::vector<RawDecode> g_decode;
 bool g_capture_reads = true;
 
 static std::map<std::string, RunnerFactory>& registry() {
@@ -269,7 +270,7 @@ static void run_ops(const Script& sc, const std::vector<std::string>& binding) {
         }
         IRunner* r = ex.runners[op.p];
         std::string P = "\"p\":" + std::to_string(op.p);
-        const bool observing = op.k == "T" || op.k == "CT" || op.k == "R" || op.k == "C" || op.k == "X" || op.k == "SO" || op.k == "SL" ||
+        const bool observing = op.k == "T" || op.k == "CT" || op.k == "R" || op.k == "C" || op.k == "X" || op.k == "SO" || op.k == "SL" || op.k == "EN" ||
                                op.k == "L" || op.k == "RT" || op.k == "A" || op.k == "VN" || op.k == "VD" ||
                                op.k == "VG" || op.k == "VC";
         if (observing && !ex.fresh[op.p]) {
@@ -402,6 +403,20 @@ static void run_ops(const Script& sc, const std::vector<std::string>& binding) {
             } else {
                 emit(std::string("{\"e\":\"resolve\",") + P + ",\"m\":" + std::to_string(m) + ",\"t\":" +
                      jlist(t) + ",\"o\":" + std::to_string(cr.o) + "}");
+            }
+        } else if (op.k == "EN") {
+            std::string evs = r->encode_decode();
+            if (evs.empty()) {
+                emit("{\"e\":\"skip\"," + P + ",\"why\":\"encode not supported by this policy\"}");
+                continue;
+            }
+            std::size_t pos = 0;
+            while (pos < evs.size()) {
+                auto nl = evs.find('\n', pos);
+                if (nl == std::string::npos) nl = evs.size();
+                std::string one = evs.substr(pos, nl - pos);
+                if (!one.empty()) emit("{" + one + "," + P + "}");
+                pos = nl + 1;
             }
         } else if (op.k == "SO") {
             emit("{\"e\":\"offsets\"," + P + "," + r->write_offsets() + "}");
@@ -641,7 +656,8 @@ struct Collector : Sink {
     }
     void write(const char*, const void*, std::size_t, std::size_t, std::size_t) override {
     }
-    void decode(const char*, const void*, const void*) override {
+    void decode(const char* kind, const void* a, const void*) override {
+        dyn::g_decode.push_back({kind[0], a});
     }
 };
 static Collector collector;
